@@ -109,6 +109,9 @@ pub struct Ev {
 }
 
 pub const MAX_EINTR_STREAK: u32 = 3;
+/// fault rule for "whatever operation is running": positions count over the whole run (a disk that fills up
+/// after a total byte budget, whichever operation crosses it)
+pub const ANY_OP: u32 = u32::MAX - 1;
 pub const MAX_SYSCALLS: u64 = 3_000_000;
 
 /// The I/O scheduler: the recorded fault plan applied to the calls an operation actually makes.
@@ -119,6 +122,10 @@ pub struct IoSched {
     pub chunk_r: Chunk,
     pub chunk_w: Chunk,
     counters: Vec<Counter>,
+    /// run-wide (role, dir, calls, bytes), never reset
+    totals: Vec<(u16, Dir, u64, u64)>,
+    /// (operation, fault index) pairs: which fault took effect in which operation
+    fired_in: std::collections::BTreeSet<(u32, usize)>,
     pub roles: Vec<String>,
     pub events: Vec<Ev>,
     pub api_log: Vec<String>,
@@ -138,6 +145,8 @@ impl IoSched {
             chunk_r,
             chunk_w,
             counters: Vec::new(),
+            totals: Vec::new(),
+            fired_in: Default::default(),
             roles: Vec::new(),
             events: Vec::new(),
             api_log: Vec::new(),
@@ -191,16 +200,26 @@ impl IoSched {
             self.overrun = true;
         }
         let ci = self.counter(role, dir);
-        let (call, pos) = (self.counters[ci].calls, self.counters[ci].bytes);
+        let (call_op, pos_op) = (self.counters[ci].calls, self.counters[ci].bytes);
         self.counters[ci].calls += 1;
+        let ti = match self.totals.iter().position(|t| t.0 == role && t.1 == dir) {
+            Some(i) => i,
+            None => {
+                self.totals.push((role, dir, 0, 0));
+                self.totals.len() - 1
+            }
+        };
+        let (call_tot, pos_tot) = (self.totals[ti].2, self.totals[ti].3);
+        self.totals[ti].2 += 1;
         let mut allowed = want;
         let mut err: Option<i32> = None;
         let op = self.op;
         for i in 0..self.faults.len() {
             let f = &self.faults[i];
-            if f.op != op || f.dir != dir || self.roles[role as usize] != f.role {
+            if (f.op != op && f.op != ANY_OP) || f.dir != dir || self.roles[role as usize] != f.role {
                 continue;
             }
+            let (call, pos) = if f.op == ANY_OP { (call_tot, pos_tot) } else { (call_op, pos_op) };
             let kind = f.kind();
             match f.act {
                 Act::Eio | Act::Enospc => {
@@ -213,6 +232,7 @@ impl IoSched {
                                     self.fired_at.push((kind, op, pos));
                                 }
                                 self.fired[i] += 1;
+                                self.fired_in.insert((op, i));
                             } else {
                                 allowed = allowed.min((k - pos) as usize);
                             }
@@ -224,6 +244,7 @@ impl IoSched {
                                     self.fired_at.push((kind, op, pos));
                                 }
                                 self.fired[i] += 1;
+                                self.fired_in.insert((op, i));
                             }
                         }
                     }
@@ -241,10 +262,12 @@ impl IoSched {
                     }
                     if let Act::Short(n) = f.act {
                         self.fired[i] = 1;
+                        self.fired_in.insert((op, i));
                         self.fired_at.push((kind, op, pos));
                         allowed = allowed.min(n.max(1) as usize);
                     } else if self.counters[ci].eintr_streak < MAX_EINTR_STREAK && err.is_none() {
                         self.fired[i] = 1;
+                        self.fired_in.insert((op, i));
                         self.fired_at.push((kind, op, pos));
                         self.counters[ci].eintr_streak += 1;
                         err = Some(libc::EINTR);
@@ -255,9 +278,7 @@ impl IoSched {
         }
         if let Some(e) = err {
             // a persistent error wins over a transient one
-            let hard = self.faults.iter().enumerate().any(|(i, f)| {
-                self.fired[i] > 0 && matches!(f.act, Act::Eio | Act::Enospc) && f.op == op && f.dir == dir
-            });
+            let hard = self.faults.iter().enumerate().any(|(i, f)| self.fired_in.contains(&(op, i)) && matches!(f.act, Act::Eio | Act::Enospc) && f.dir == dir);
             let e = if hard && e == libc::EINTR { libc::EIO } else { e };
             self.events.push(Ev { op, role, kind: dir_kind(dir), a: want as u64, b: -(e as i64) });
             return Err(e);
@@ -293,6 +314,9 @@ impl IoSched {
         let ci = self.counter(role, dir);
         if got > 0 {
             self.counters[ci].bytes += got as u64;
+            if let Some(t) = self.totals.iter_mut().find(|t| t.0 == role && t.1 == dir) {
+                t.3 += got as u64;
+            }
         }
         self.events.push(Ev { op: self.op, role, kind: dir_kind(dir), a: want as u64, b: got });
     }
@@ -301,12 +325,13 @@ impl IoSched {
         let op = self.op;
         for i in 0..self.faults.len() {
             let f = &self.faults[i];
-            if f.op == op && f.dir == Dir::Open && f.role == self.roles[role as usize] {
+            if (f.op == op || f.op == ANY_OP) && f.dir == Dir::Open && f.role == self.roles[role as usize] {
                 if let Act::FailOpen(e) = f.act {
                     if self.fired[i] == 0 {
                         self.fired_at.push(("open_fail", op, 0));
                     }
                     self.fired[i] += 1;
+                    self.fired_in.insert((op, i));
                     self.events.push(Ev { op, role, kind: b'o', a: 0, b: -(e as i64) });
                     return Some(e);
                 }
@@ -379,16 +404,16 @@ impl IoSched {
         self.fired.iter().any(|x| *x > 0)
     }
     pub fn hard_fired(&self, op: u32) -> bool {
-        self.faults
-            .iter()
-            .enumerate()
-            .any(|(i, f)| f.op == op && self.fired[i] > 0 && !f.transient())
+        self.fired_in.iter().any(|(o, i)| *o == op && !self.faults[*i].transient())
     }
     pub fn transient_fired(&self, op: u32) -> bool {
-        self.faults
-            .iter()
-            .enumerate()
-            .any(|(i, f)| f.op == op && self.fired[i] > 0 && f.transient())
+        self.fired_in.iter().any(|(o, i)| *o == op && self.faults[*i].transient())
+    }
+    pub fn total_bytes(&self, role: &str, dir: Dir) -> u64 {
+        match self.roles.iter().position(|r| r == role) {
+            Some(r) => self.totals.iter().find(|t| t.0 == r as u16 && t.1 == dir).map(|t| t.3).unwrap_or(0),
+            None => 0,
+        }
     }
 }
 
